@@ -1,7 +1,7 @@
 (* C01 / C20 over the tables regenerated from the source: the decidable side conditions of ParserProofs hold of Gen/G_OperatorTable.v,
    Gen/G_Keywords.v by computation, so the generic theorems of ParserBodies apply to the parser as it is written today. *)
 From Coq Require Import ZArith NArith List Bool String Lia.
-From ChaiV Require Import NumDefs Ast LexDefs LexProofs LexLitProofs ParserLexProofs ParserDefs ParserProofs ParserBodies.
+From ChaiV Require Import NumDefs Ast LexDefs LexProofs LexLitProofs ParserLexProofs ParserDefs ParserProofs ParserBodies ParserTriviaProofs.
 From ChaiV.Gen Require Import G_IntLadder G_Keywords G_OperatorTable.
 Import ListNotations.
 Local Open Scope string_scope.
@@ -44,3 +44,23 @@ Theorem parse_gen_no_out_of_fuel : forall bytes file, parse A T K G bytes file <
 Proof. exact (parse_no_out_of_fuel A T K G id_sub_keyword_gen tables_gen_ok). Qed.
 Theorem parse_gen_root : forall bytes file n s', parse_full A T K G bytes file = Ok (n, s') -> root_ok bytes n s'.
 Proof. exact (parse_root A T K G id_sub_keyword_gen tables_gen_ok). Qed.
+
+(* the white-space alphabet is {tab, space} *)
+Lemma white_gen_ok : forall c, in_alpha (a_white A) c = true -> c = 32%N \/ c = 9%N.
+Proof.
+  intros c H. unfold in_alpha in H. change (a_white A) with [9%N; 32%N] in H. cbn [existsb] in H.
+  destruct (N.eqb_spec c 9); [right; assumption|]. destruct (N.eqb_spec c 32); [left; assumption|]. discriminate.
+Qed.
+
+(* C01_accounts for inputs that do not begin with the two bytes `#!` *)
+Theorem parse_gen_accounts : forall bytes file n s',
+  no_shebang bytes -> parse_full A T K G bytes file = Ok (n, s') ->
+  (pn_kind n = Ast.KFile /\ idx (pos s') = List.length bytes) \/ (n = noop_node /\ trivia_only bytes = true).
+Proof.
+  intros bytes file n s' Hns E. destruct (parse_gen_root bytes file n s' E) as (Hb & Hw & Hi & Hd & [Hk|Hk]).
+  - left. auto.
+  - right. split; [exact Hk|].
+    unfold parse_full in E.
+    change bytes with (buf (pos (mkState (pos_begin bytes) 0 (mkPS [] file 0%N)))).
+    apply (parse_internal_noop A T K G white_gen_ok id_sub_keyword_gen parse_fuel _ s' n); [apply wf_pos_begin|left; reflexivity|exact Hns|exact E|rewrite Hk; reflexivity].
+Qed.
